@@ -89,7 +89,7 @@ JudgeAcceptsSpec ==
     /\ \A op \in RelOps :
           Failed([op |-> op, a |-> r1, b |-> r2, res |-> SpecRel(op, r1, r2)]) = {}
     /\ Failed([op |-> "iv.cmp", a |-> r1, b |-> r2,
-               res |-> [cmp |-> CmpRef(r1, r2)] @@ OpsOfCmp(CmpRef(r1, r2))]) = {}
+               res |-> [cmp |-> CmpRef(r1, r2), ne |-> CmpRef(r1, r2) # "eq"] @@ OpsOfCmp(CmpRef(r1, r2))]) = {}
     /\ \A op \in ScalarOps, k \in Scalars : ScalarAdmissible(op, r1, k) =>
           Failed([op |-> "iv.scalar", sop |-> op, a |-> r1, k |-> k,
                   out |-> SpecScalar(op, r1, k)]) = {}
